@@ -45,6 +45,7 @@ func (f *syntaxFilterQualifier) retrieveMap(
 	}
 
 	valueList = f.query.compute(root, valueList)
+	verifFilterList(valueList, len(srcMap))
 
 	isEachResult := len(valueList) == len(srcMap)
 
@@ -91,6 +92,7 @@ func (f *syntaxFilterQualifier) retrieveList(
 	var deepestError errorRuntime
 
 	valueList := f.query.compute(root, srcList)
+	verifFilterList(valueList, len(srcList))
 
 	isEachResult := len(valueList) == len(srcList)
 
